@@ -2,5 +2,6 @@ SPECIFICATION Spec
 CONSTANTS
   Holders = {h1, h2}
   Names = {1, 2, 3}
+  GlobalAcq = FALSE
   Sorted = FALSE
 INVARIANTS Exclusion Independent
